@@ -283,8 +283,52 @@ def compare_with_table_path(F, spec):
             raise Violation(ID, "framework-load/file-path-differs-from-table-path/" + what, "%s differ between the framework read from the .xlsx file and the same tables validated directly: %r" % (what, {k: (a.get(k), b.get(k)) for k in diff}))
 
 
-def run_chain(spec, F=None, context="", from_file=False, compare=False):
-    """stages after (and including, when F is None) the framework load. returns labels"""
+def outputs(res):
+    """everything a run computed: {(population, kind, name...): array}"""
+    import numpy as np
+
+    out = {}
+    for pop in res.model.pops:
+        for c in pop.comps:
+            out[(pop.name, "comp", c.name)] = np.asarray(c.vals, dtype=float)
+        for c in pop.characs:
+            out[(pop.name, "charac", c.name)] = np.asarray(c.vals, dtype=float)
+        for par in pop.pars:
+            out[(pop.name, "par", par.name)] = np.asarray(par.vals, dtype=float)
+        n = {}
+        for l in pop.links:
+            k = (pop.name, "link", l.source.name, l.dest.pop.name, l.dest.name, l.parameter.name if l.parameter is not None else "anon")
+            n[k] = n.get(k, 0) + 1
+            out[k + (n[k],)] = np.asarray(l.vals, dtype=float)
+    return out
+
+
+def compare_runs(entry, target, base_out, out, ctx):
+    """an accepted input must give a run that is finite wherever the run of the unmutated file is finite; when the edit does not change
+    the meaning of the file (entry.same) the results must be the same"""
+    import numpy as np
+
+    labels = ["outcome:finite-where-base-finite"]
+    for k, b in base_out.items():
+        m = out.get(k)
+        if m is None or m.shape != b.shape:
+            if entry.same:
+                raise Violation(ID, "%s/accepted-with-different-results/%s" % (target, entry.id), "%s: output %r of the unmutated file is missing or has another length after a meaning-preserving edit" % (ctx, k))
+            continue
+        bad = np.isfinite(b) & ~np.isfinite(m)
+        if bad.any():
+            i = int(np.argmax(bad))
+            raise Violation(ID, "%s/accepted-but-run-not-finite/%s" % (target, entry.id), "%s: the file is accepted but the run is not finite: %r is %r at time index %d where the unmutated file gives %r (%d non-finite values in this series)" % (ctx, k, float(m[i]), i, float(b[i]), int(bad.sum())))
+        if entry.same and not np.allclose(b, m, rtol=1e-9, atol=1e-12, equal_nan=True):
+            i = int(np.nanargmax(np.abs(np.where(np.isfinite(b) & np.isfinite(m), b - m, 0.0))))
+            raise Violation(ID, "%s/accepted-with-different-results/%s" % (target, entry.id), "%s: the edit does not change the meaning of the file (%s) but %r differs: %r vs %r at time index %d" % (ctx, entry.rule[:160], k, float(m[i]), float(b[i]), i))
+    if entry.same:
+        labels.append("outcome:same-results-as-base")
+    return labels
+
+
+def run_chain(spec, F=None, context="", from_file=False, compare=False, all_row=0):
+    """stages after (and including, when F is None) the framework load. returns (labels, result)"""
     at = _at()
     import numpy as np
 
@@ -316,6 +360,14 @@ def run_chain(spec, F=None, context="", from_file=False, compare=False):
         with _Stage("databook-read", context):
             D1 = at.ProjectData.from_spreadsheet(ss0, F)
         fill_data(D1, spec)
+        if all_row and D1.tdve:
+            # a quantity may be entered as an 'All' row standing in for a population without a row of its own (data.py:504-510, parameters.py:408-414)
+            keys = sorted(D1.tdve.keys())
+            tdve = D1.tdve[keys[all_row % len(keys)]]
+            if len(tdve.ts) and "All" not in tdve.ts and "all" not in tdve.ts:
+                first = list(tdve.ts.keys())[0]
+                tdve.ts["All"] = tdve.ts.pop(first)
+                labels.append("databook:all-row")
         with _Stage("databook-write-filled", context):
             ss1 = D1.to_spreadsheet()
         with _Stage("project-load", context):
@@ -325,11 +377,11 @@ def run_chain(spec, F=None, context="", from_file=False, compare=False):
             P.settings.update_time_vector(start=s["start"], end=s["end"], dt=s["dt"])
             ps = P.parsets[0]
             build.apply_factors(spec, ps)
-            P.run_sim(ps, result_name="c18")
+            res = P.run_sim(ps, result_name="c18")
     finally:
         if path and os.path.exists(path):
             os.remove(path)
-    return labels
+    return labels, res
 
 
 # --------------------------------------------------------------------------------------------------- bases
@@ -365,6 +417,16 @@ def _lib_F(b, target):
         e = b["F_error"]
         raise Violation(ID, _internal_bucket("framework", e) if not _dedicated(e, "framework") else "framework/valid-file-rejected/%s/%s" % (type(e).__name__, _where(e)), "library framework %s_framework.xlsx (a valid file shipped with the package) does not load: %s" % (b["name"], _describe(e)))
     return b["F"]
+
+
+def _lib_run(b):
+    """outputs of the unchanged library model (framework + databook as shipped), cached"""
+    at = _at()
+    if b.get("out") is None:
+        with _Stage("library-run", "library %s" % b["name"]):
+            P = at.Project(framework=_lib_F(b, "framework"), databook=xw.spreadsheet(b["db_blob"]), do_run=False)
+            b["out"] = outputs(P.run_sim(P.parsets[0], result_name="c18"))
+    return b["out"]
 
 
 def _lib_D(b):
@@ -454,7 +516,7 @@ def make_base(case):
     if target == "databook":
         with _Stage("databook-write-filled", "generated base"):
             blob = D.to_spreadsheet().blob
-        return {"wb": xw.load_values(blob), "F": F, "spec": spec}
+        return {"wb": xw.load_values(blob), "F": F, "spec": spec, "blob0": blob}
     with _Stage("base-progset", "generated base"):
         D.validate(F)
         pg = gen_progset(spec, F, D)
@@ -497,8 +559,10 @@ def eval_framework(entry, blob, base, ctx):
         _silent(entry, "framework", ctx)
     labels = ["outcome:accepted"]
     if base.get("spec") is not None:
-        run_chain(base["spec"], F=F, context=ctx + " (accepted edit, chain)")
+        _, res = run_chain(base["spec"], F=F, context=ctx + " (accepted edit, chain)")
         labels.append("outcome:chain-ran")
+        _, res0 = run_chain(base["spec"], context=ctx + " (unmutated base)")
+        labels += compare_runs(entry, "framework", outputs(res0), outputs(res), ctx)
     else:
         import numpy as np
 
@@ -514,8 +578,9 @@ def eval_framework(entry, blob, base, ctx):
             with _Stage("project-load", ctx):
                 P = at.Project(framework=F, databook=xw.spreadsheet(b["db_blob"]), do_run=False)
             with _Stage("run", ctx):
-                P.run_sim(P.parsets[0], result_name="c18")
+                res = P.run_sim(P.parsets[0], result_name="c18")
             labels.append("outcome:chain-ran")
+            labels += compare_runs(entry, "framework", _lib_run(b), outputs(res), ctx)
     return labels
 
 
@@ -543,7 +608,15 @@ def eval_databook(entry, blob, base, ctx):
         if spec is not None:
             s = spec["settings"]
             P.settings.update_time_vector(start=s["start"], end=s["end"], dt=s["dt"])
-        P.run_sim(P.parsets[0], result_name="c18")
+        res = P.run_sim(P.parsets[0], result_name="c18")
+    if spec is not None:
+        with _Stage("run", ctx + " (unmutated base)"):
+            P0 = at.Project(framework=F, databook=xw.spreadsheet(base["blob0"]), do_run=False)
+            P0.settings.update_time_vector(start=s["start"], end=s["end"], dt=s["dt"])
+            base_out = outputs(P0.run_sim(P0.parsets[0], result_name="c18"))
+    else:
+        base_out = _lib_run(base["lib"])
+    labels += compare_runs(entry, "databook", base_out, outputs(res), ctx)
     return labels
 
 
@@ -615,7 +688,7 @@ def check(case):
     if case.get("mode") == "chain":
         spec = case["spec"]
         h = int(case_hash(spec), 16)
-        labels = run_chain(spec, from_file=(h % 3 == 0), compare=(h % 4 == 0), context="valid generated framework")
+        labels, _ = run_chain(spec, from_file=(h % 3 == 0), compare=(h % 4 == 0), all_row=(1 + h // 7 if h % 5 == 0 else 0), context="valid generated framework")
         return {"nontrivial": True, "labels": ["mode:chain"] + labels + [l for l in spec.get("labels", []) if l.startswith(("has:", "junction:res", "timed:group", "par:function", "par:agg", "pops:"))]}
     return check_mut(case)
 
